@@ -434,10 +434,11 @@ class Unit:
                 if cid not in self.dropped_hints:
                     cur.hints.append((cid, m.group(1), int(m.group(2)), json.loads(m.group(3)), t))
             elif cmd == 'wrap':
-                m = re.match(r'(\d+)\s+("(?:[^"\\]|\\.)*")\s*::\s*(.*)$', arg, re.S)
-                cid, t = self._cid(m.group(3), cur.name, 'wrap')
+                # wrap <occ> "<anchor expr>" [as <type>] :: text    (E -> { let r__[: type] = E; text r__ })
+                m = re.match(r'(\d+)\s+("(?:[^"\\]|\\.)*")\s*(?:as\s+(.+?)\s*)?::\s*(.*)$', arg, re.S)
+                cid, t = self._cid(m.group(4), cur.name, 'wrap')
                 if cid not in self.dropped_hints:
-                    cur.wraps.append((cid, int(m.group(1)), json.loads(m.group(2)), t))
+                    cur.wraps.append((cid, int(m.group(1)), json.loads(m.group(2)), t, m.group(3)))
             elif cmd == 'wrap_arm':
                 m = re.match(r'(\d+)\s+(\d+)\s*::\s*(.*)$', arg, re.S)
                 cid, t = self._cid(m.group(3), cur.name, 'wrap')
